@@ -43,6 +43,15 @@ fn gen_strings(rng: &mut Rng, n: usize, alpha: &[char]) -> Vec<String> {
         if k > 100 { for t in [format!("C{}1CC1", br), format!("CC{}1CC1", br), format!("C{}1(CC12)2", br)] { v.push(t) } continue }
         for t in [format!("C{}1CC1", br), format!("CC{}1CC1", br), format!("C1{}CC1", br), format!("C{}1(CC12)2", br), format!("C{}1(CC1)", br), format!("C{}12CC1C2", br),
                   format!("C1CC1{}", br), format!("C{}1CC1C2CC2", br), format!("C{}%99CC%99", br), format!("C{}=1CC1", br), format!("C{}1CC=1", br), format!("C{}1(C1)", br)] { v.push(t) } }
+    // characters at the limits of the code space, and characters whose low byte / low 16 bits alias a SMILES character, in every kind of position
+    for c in ['\u{ffff}', '\u{fffe}', '\u{0}', '\u{10ffff}', '\u{fffd}', '\u{80}', '\u{130}', '\u{131}', '\u{137}', '\u{125}', '\u{128}', '\u{143}', '\u{15b}', '\u{10031}', '\u{10043}', '\u{1f635}', '\u{ff11}', '\u{2167}'] {
+        for t in [format!("C{}", c), format!("{}C", c), format!("C{}C", c), format!("C1CC1{}C", c), format!("C%1{}CCCCC%11", c), format!("C%{}7CC7", c), format!("C=%{}5CC=%55", c), format!("C{}CC1", c),
+                  format!("[C{}]", c), format!("[CH{}]", c), format!("[C:{}]", c), format!("[{}C]", c), format!("[C+{}]", c), format!("[C@TB{}]", c), format!("C({}C)C", c), format!("C(C{})C", c)] { v.push(t) } }
+    // a dot inside a branch after a long chain / after nested branches (the writer must still reach back over it); a number re-opened on the same atom
+    for k in [3usize, 255, 256, 257, 300] { v.push(format!("{}(C.C)C", "C".repeat(k))); v.push(format!("{}(C(C.O)C)N", "C".repeat(k))) }
+    for t in ["C(C.O)N", "CC(C.[Na+])O", "C(C1.C1)C", "C(C(.O)C)N", "C(.C.C.C.C)C", "C(C.C.C)C"] { v.push(t.to_string()) }
+    for n in ["1", "7", "%12", "%07"] { for t in ["C{n}(CC{n}){n}CC{n}", "C{n}(C(C)C{n}){n}CCC{n}", "C{n}(CC{n})(C){n}CC{n}", "CC{n}(CC{n})C{n}CC{n}", "C{n}(CC{n})C{n}(CC{n}){n}CC{n}", "C={n}(CC={n})#{n}CC#{n}",
+        "*={n}%12", "C/{n}%10CC\\{n}CC%10", "C={n}%10%11CC%11CC%10C={n}", "C{n}={n}"] { v.push(t.replace("{n}", n)) } }
     // many ring digits before an unmatched one; redundant percent spellings
     v.push(format!("{}C1", "C1CC1".repeat(90))); v.push(format!("{}C1C1", "C1CC1".repeat(90)));
     for t in ["C%05CC%05", "C1CC%01", "C(C=%07)CCC%07", "C%00CC%00", "C%09CC9", "C0CC%00", "C%10CC%10"] { v.push(t.to_string()) }
@@ -192,7 +201,7 @@ fn main() {
     std::panic::set_hook(Box::new(|_| {}));
     let args: Vec<String> = std::env::args().collect();
     let (suite, count, outdir, shards) = (args[1].as_str(), args[2].parse::<usize>().unwrap(), args[3].clone(), args[4].parse::<usize>().unwrap());
-    let alpha: Vec<char> = std::env::var("VERIF_ALPHABET").unwrap_or("()*+-.0123456789:=@BCFHNOPS[]%clnos#/\\$".into()).chars().chain("\u{e9}~ \u{b2}\u{663}\u{ff12}\u{feff}\u{200b}\u{a0}".chars()).collect();
+    let alpha: Vec<char> = std::env::var("VERIF_ALPHABET").unwrap_or("()*+-.0123456789:=@BCFHNOPS[]%clnos#/\\$".into()).chars().chain("\u{e9}~ \u{b2}\u{663}\u{ff12}\u{feff}\u{200b}\u{a0}\u{ffff}\u{0}\u{130}\u{131}\u{10031}\u{1f635}".chars()).collect();
     let mut rng = Rng::from_env(suite.bytes().fold(7u64, |a, b| a.wrapping_mul(131).wrapping_add(b as u64)));
     let mut cases: Vec<String> = vec![];
     let mut dist = std::collections::BTreeMap::<String, usize>::new();
